@@ -470,7 +470,7 @@ static void finish (int diverged) {
 			char fb[64];
 			o += (size_t) snprintf (b + o, sizeof b - o, " t%d:%s@%s", i + 1, rt_state (i) == F_BLOCKED ? "futex" : rt_kind_name (rt_pending (i)->kind), rt_op_fn (rt_pending (i), fb, sizeof fb));
 		}
-		if (guard >= 200000) rt_violation ("O-prog", "no termination within the step bound (livelock):%s", b);
+		if (guard >= 200000) rt_violation ("O-prog", "no termination within the step bound (livelock):%s word=0x%x", b, S.mu_freed ? 0 : *(volatile uint32_t *) &S.mu->word);
 		else rt_violation ("O-prog", "threads are blocked for ever with nothing runnable (lost wake-up / deadlock):%s word=0x%x", b, S.mu_freed ? 0 : *(volatile uint32_t *) &S.mu->word);
 	}
 }
